@@ -159,7 +159,7 @@ fn gen_chaotic(r: &mut Rng, rs: &mut Rng, n_sources: usize, src_lens: &[usize]) 
             2 => Some(r.pickc(&[-131073i32, -131072, -8, -7, -1, 0, 1, 9, 10, 22, 23, 100, i32::MIN, i32::MAX])),
             _ => gen_level(r, method),
         };
-        Opts { method, level, dos: (0x21, 0), ctor: None, perm: if r.chance(1, 3) { Some(r.below(512) as u32) } else { None }, large: r.chance(1, 5), password: None }
+        Opts { method, level, dos: (0x21, 0), ctor: None, perm: if r.chance(1, 3) { Some(r.below(512) as u32) } else { None }, large: r.chance(1, 5), password: None, via_path: None }
     };
     let small_content = |r: &mut Rng| -> Content {
         match r.below(4) {
